@@ -860,6 +860,9 @@ class Program:
             obj = getattr(builtins, parts[-1])
         if obj is not None:
             attrs |= set(dir(obj))
+        if parts[-1] == "NamedTuple":
+            # typing.NamedTuple is a class factory: its products are tuples with the namedtuple API
+            attrs |= set(dir(tuple)) | {"_fields", "_field_defaults", "_asdict", "_replace", "_make"}
         self._EXT_BASE_CACHE[base] = attrs
         return attrs
 
